@@ -6,7 +6,11 @@ RULE = ("h_gpbft: one case = one network run of 2..7 real gpbft.Participants (ra
         "members, forking inputs over a common base, < 1/3 scaled-power Byzantine members that equivocate with validly "
         "signed messages, replay/assemble justifications from observed votes, inject foreign-base / foreign-supplement "
         "messages, deliver selectively; scheduler reorders, delays, drops (mode byz), duplicates, fires alarms late; modes "
-        "byz/live/sync). One log line = one API call on one honest participant with everything it did through its Host; "
+        "byz/live/sync; mode script = a single real participant with every other member driven by the harness, which holds all "
+        "keys: any sequence of validated messages, also ones no < 1/3 adversary could produce — sways, skips, late-binding "
+        "rejects from the queue; mode multi = 2-3 consecutive instances without faulty members, a lagging node, "
+        "one virtual node per (participant, instance): future-instance queueing, past-instance drops, decision hand-off, "
+        "proposals extending the decided chain). One log line = one API call on one honest participant with everything it did through its Host; "
         "each is replayed through F3.Instance.pstep and compared (effects, progress, error class). "
         "distinct_nontrivial = distinct `o` lines that produced an effect or changed progress (regex).")
 
